@@ -958,10 +958,10 @@ func (e *Engine) evalSelect(ctx *EvalCtx, a Val, name string) (Val, error) {
 	if !hasBound(cur.S) {
 		switch cur.T.Underlying().(type) {
 		case *types.Slice:
-			key := "specty:" + cur.S
+			key := "specty:" + ctx.st.cond + ":" + cur.S
 			if !e.sc.declared[key] && len(cur.S) < 400 {
 				e.sc.declared[key] = true
-				e.assume("true", e.typingFact(cur.T, cur.S, ""))
+				e.assume(ctx.st.cond, e.typingFact(cur.T, cur.S, ""))
 			}
 		}
 	}
